@@ -37,6 +37,10 @@ type c13Plan struct {
 	// the call is cancelled or the channel closed: the error must still wrap what ended the call).
 	WithEED   bool `json:"with_eed,omitempty"`
 	FlushFull bool `json:"flush_full,omitempty"` // the cancelled send is the flush of a message that exactly filled its packets
+	// SetLast (close-queue) 1 / 2: before Close another goroutine calls SetLastPkgRx / SetLastPkgTx on the channel
+	// (with the reader parked on a full receive queue that call waits); Close returns all the same, and so does the
+	// setter afterwards.
+	SetLast int `json:"set_last,omitempty"`
 	// Flood (cancel): the response has hundreds of packages and no end, the consumer is one NextPackageUntil call whose
 	// callback wants them all: packets keep arriving while the call runs and after its context is cancelled. Once
 	// cancelled the call may still hand out what was queued at that moment, but it returns - it does not go on for
@@ -132,6 +136,9 @@ func (c13) Gen(r *Rand, idx int, tier string) interface{} {
 	p.StallWindow = -1
 	if (p.Kind == "closed-calls" || p.Kind == "conn-close" || p.Kind == "close-queue") && !p.DeadPeer && r.Pct(12) {
 		p.StallWindow = Pick(r, []int{0, 4, 16, 100})
+	}
+	if p.Kind == "close-queue" && p.StallWindow < 0 && r.Pct(30) {
+		p.SetLast = 1 + r.Intn(2)
 	}
 	if p.Kind == "close-errqueue" {
 		p.BadPackets = 1 + r.Intn(14)
@@ -530,6 +537,9 @@ func (c13) Run(plan interface{}, schedSeed uint64, replay []simrt.Choice, lenien
 		v.Violate("race", "race", "%s: the race detector reported %d data race(s) on this schedule", p.Kind, out.Races)
 	}
 	v.Probe("kind:" + p.Kind)
+	if p.SetLast > 0 {
+		v.Probe("close-with-a-setter-of-the-last-package-waiting")
+	}
 	if p.Kind != "cancel" && p.Kind != "close-send" && c13Pending(p) > p.QueueSize {
 		v.Probe("trigger:queue-overflow-at-close")
 	}
@@ -963,6 +973,19 @@ func c13CloseQueue(p *c13Plan, res *c13Res, conn *tds.Conn, ch *tds.Channel) {
 		simrt.Yield(0)
 	}
 	c13StallPeer()
+	var setter *simrt.Task
+	if p.SetLast > 0 {
+		setter = simrt.Spawn("setter", func() {
+			if p.SetLast == 1 {
+				ch.SetLastPkgRx(nil)
+			} else {
+				ch.SetLastPkgTx(nil)
+			}
+		})
+		for i := 0; i < 1+p.CloseAfter%4; i++ {
+			simrt.Yield(0)
+		}
+	}
 	res.inCall = true
 	res.closeStart = simrt.SimNow()
 	res.closeCall = simrt.Record("close-call", "", "", 0)
@@ -973,6 +996,9 @@ func c13CloseQueue(p *c13Plan, res *c13Res, conn *tds.Conn, ch *tds.Channel) {
 	pk, err := ch.NextPackage(bg, false)
 	if pk != nil || !errors.Is(err, tds.ErrChannelClosed) {
 		res.violate("delivery-after-close", "closed: NextPackage after Close", "after Close: NextPackage returned (%v, %v)", pk, err)
+	}
+	if setter != nil {
+		simrt.Join(setter)
 	}
 }
 
